@@ -116,6 +116,14 @@ func (b *convBuilder) bdat(chunks [][]byte, abandon bool) *convBuilder {
 	return b
 }
 
+// raw appends octets that are answered with n replies (a command with its payload).
+func (b *convBuilder) raw(s string, n int) *convBuilder {
+	b.c.In = append(b.c.In, s...)
+	b.c.CmdEnds = append(b.c.CmdEnds, len(b.c.In))
+	b.replies += n
+	return b
+}
+
 func (b *convBuilder) done() Conv { return b.c }
 
 var corpusModes = []string{"smtp", "lmtp", "lmtp-rcpt"}
@@ -147,6 +155,12 @@ func TransferCorpus() []Conv {
 		out = append(out, newConv("bdat-3-lastempty", mode, 0).envelope().bdat([][]byte{[]byte("abc"), []byte("defg\r\n"), nil}, false).cmd("NOOP").done())
 		out = append(out, newConv("bdat-emptyfirst", mode, 0).envelope().bdat([][]byte{nil, []byte("xyz")}, false).cmd("QUIT").done())
 		out = append(out, newConv("bdat-limit", mode, 30).envelope().bdat([][]byte{[]byte("0123456789"), []byte("0123456789")}, false).cmd("NOOP").done())
+		// a chunk refused for the size limit in the middle of a transfer, and a pipelining client that
+		// sends the LAST chunk anyway: the message can never be complete
+		out = append(out, newConv("bdat-overlimit-middle-then-last", mode, 30).envelope().bdat([][]byte{[]byte("0123456789")}, true).
+			raw("BDAT 40\r\n"+strings.Repeat("y", 40), 1).raw("BDAT 5 LAST\r\nzzzzz", 1).cmd("NOOP").done())
+		out = append(out, newConv("bdat-overlimit-middle-then-empty-last", mode, 30).envelope().bdat([][]byte{[]byte("0123456789")}, true).
+			raw("BDAT 40\r\n"+strings.Repeat("y", 40), 1).raw("BDAT 0 LAST\r\n", 1).cmd("QUIT").done())
 		out = append(out, newConv("bdat-then-data", mode, 0).envelope().bdat([][]byte{[]byte("m1")}, false).envelope().data([]byte("m2\r\n.\r\n")).cmd("QUIT").done())
 		// abandoned transfers
 		for _, ab := range []string{"RSET", "QUIT", strings.TrimSuffix(hello(mode), "\r\n"), "NOOP", "MAIL FROM:<ok@c.example>", "DATA"} {
